@@ -1031,6 +1031,16 @@ Proof.
   destruct Ho as [s [Hs [Hsid _]]]. apply in_map_iff. exists s. tauto.
 Qed.
 
+Lemma open_owned : forall st out, Inv st ->
+  forallb (owned_in (ob_sessions (obs_of st out))) (ob_open (obs_of st out)) = true.
+Proof.
+  intros st out H. apply forallb_forall. intros e He. simpl in He.
+  destruct H. destruct (inv_own_m0 e He) as [s [Hs [Hsid Hw]]].
+  unfold owned_in. apply existsb_exists. exists (ss_sid s, ss_pubs s, ss_subs s). split.
+  - simpl. apply in_map_iff. exists s. split; [reflexivity | assumption].
+  - simpl. rewrite Hsid, N.eqb_refl. simpl. unfold owns in Hw. destruct (e_kind e); exact Hw.
+Qed.
+
 Lemma send_open : forall st c m, cs_closed (conns st c) = false -> send st c m = [(c, m)].
 Proof. intros st c m H. unfold send. rewrite H. reflexivity. Qed.
 
@@ -1082,7 +1092,7 @@ Proof.
   - unfold chk_sessions. rewrite Hnew. destruct o; reflexivity.
   - unfold chk_prehello. destruct o; simpl in Hc; try discriminate; inversion Hc; subst; simpl; try reflexivity;
       destruct (bound b c); try reflexivity; rewrite N.eqb_refl; simpl; apply pobs_same.
-  - unfold chk_cleanup. rewrite owners_live by assumption.
+  - unfold chk_cleanup. rewrite owners_live by assumption. rewrite open_owned by assumption.
     destruct o; simpl in Hc; try discriminate; try reflexivity; simpl in Hbye; rewrite Hbye; reflexivity.
   - unfold chk_ids. destruct (named_id o) as [[c1 id]|] eqn:En; [|reflexivity].
     assert (c1 = c) by (destruct o as [| | |? k| | | | | | | | | |]; simpl in *; try discriminate; [destruct k|]; simpl in *; congruence).
@@ -1107,7 +1117,7 @@ Lemma chk_cleanup_plain : forall st' b prev o out, Inv st' ->
   match o with OMcuLost | OBye _ | OExpire _ | OByeIn _ _ | OExpireIn _ _ => False | _ => True end ->
   chk_cleanup b prev o (obs_of st' out) = true.
 Proof.
-  intros st' b prev o out HI Ho. unfold chk_cleanup. rewrite owners_live by assumption.
+  intros st' b prev o out HI Ho. unfold chk_cleanup. rewrite owners_live by assumption. rewrite open_owned by assumption.
   destruct o; try reflexivity; contradiction.
 Qed.
 
@@ -1183,7 +1193,7 @@ Proof.
     + apply chk_sessions_quiet; assumption.
     + unfold chk_prehello. destruct o; try contradiction; simpl; [|reflexivity].
       destruct Ho as [Ho1 Ho2]. rewrite (Hb c Ho1), Ho2. reflexivity.
-    + unfold chk_cleanup. rewrite owners_live by assumption. rewrite sids_obs.
+    + unfold chk_cleanup. rewrite owners_live by assumption. rewrite open_owned by assumption. rewrite sids_obs.
       apply memN_false in Hgone.
       destruct o; try contradiction; simpl.
       * destruct Ho as [Ho1 Ho2]. rewrite (Hb c Ho1), Ho2, Hgone. reflexivity.
@@ -1219,7 +1229,7 @@ Proof.
     + apply chk_sessions_quiet; assumption.
     + unfold chk_prehello. destruct o; try contradiction; simpl; try reflexivity;
         destruct Ho as [Ho1 Ho2]; rewrite (Hb _ Ho1), Ho2; reflexivity.
-    + unfold chk_cleanup. rewrite owners_live by assumption. rewrite sids_obs.
+    + unfold chk_cleanup. rewrite owners_live by assumption. rewrite open_owned by assumption. rewrite sids_obs.
       apply memN_false in Hgone.
       destruct o; try contradiction; simpl.
       * destruct Ho as [Ho1 Ho2]. rewrite (Hb _ Ho1), Ho2, Hgone. reflexivity.
@@ -1462,7 +1472,7 @@ Proof.
       * apply chk_sessions_quiet; [|apply hello_sids_flat; exact I].
         simpl. rewrite map_map. simpl. auto.
       * reflexivity.
-      * unfold chk_cleanup. rewrite owners_live by assumption.
+      * unfold chk_cleanup. rewrite owners_live by assumption. rewrite open_owned by assumption.
         cbn [ob_clients ob_open obs_of andb].
         destruct HI. rewrite (drop_all_nil (sessions st) (clients st)) by assumption.
         rewrite (drop_all_nil (sessions st) (mopen st)) by assumption.
